@@ -22,7 +22,6 @@ import (
 	"bytes"
 	"io"
 	"reflect"
-	"unsafe"
 )
 
 //Encoder type
@@ -30,7 +29,7 @@ type Encoder struct {
 	writer     io.Writer
 	clsDefList []ClassDef
 	nameMap    map[string]string
-	refMap     map[unsafe.Pointer]_refElem
+	refMap     map[_refKey]int
 }
 
 //NewEncoder new
@@ -70,7 +69,7 @@ func (s *stickyWriter) Write(p []byte) (int, error) {
 func (e *Encoder) Reset(w io.Writer) {
 	e.writer = &stickyWriter{w: w}
 	e.clsDefList = make([]ClassDef, 0, 11)
-	e.refMap = make(map[unsafe.Pointer]_refElem, 11)
+	e.refMap = make(map[_refKey]int, 11)
 }
 
 //RegisterNameType register name type
